@@ -79,6 +79,13 @@ pub fn build_kinds(sbx: &Path) -> Result<(), String> {
     ln("lf", "r/ll")?;
     ln("../out/of", "r/lo")?;
     ln("h1", "r/lh")?;
+    // device nodes (and links to them), where the sandbox may create them: character 1,3 and block 7,0
+    for (name, kind, dev, link) in [("cdev", libc::S_IFCHR, libc::makedev(1, 3), "lcd"), ("bdev", libc::S_IFBLK, libc::makedev(7, 0), "lbd")] {
+        let c = std::ffi::CString::new(sbx.join("r").join(name).to_str().unwrap()).unwrap();
+        if unsafe { libc::mknod(c.as_ptr(), kind | 0o640, dev) } == 0 {
+            ln(name, &format!("r/{link}"))?;
+        }
+    }
     Ok(())
 }
 
